@@ -39,6 +39,7 @@ def gen_inputs(ck):
               b'd1:ae', b'd1:a1:b1:ce', b'd1:b1:x1:a1:ye', b'd1:a1:x1:a1:ye', b'di1e1:xe', b'd4:infodee', b'l' * 50 + b'e' * 50,
               b'l' * 3000 + b'e' * 3000, b'd13:creation date3:abc4:infod4:name1:aee', b'd13:creation datei99999999999999e4:infod4:name1:aee',
               b'd13:creation datei-99999999999999e4:infod4:name1:aee', b'd13:creation datei' + b'9' * 30 + b'e4:infod4:name1:aee',
+              b'd13:creation datei72057594037927936e4:infod4:name1:aee', b'd13:creation datei-1152921504606846976e4:infod4:name1:aee', b'd13:creation datei4611686018427400249e4:infod4:name1:aee',
               b'd13:creation datele4:infod4:name1:aee', b'd13:creation dateli1ee4:infod4:name1:aee',
               b'9223372036854775808:abc', b'99999999999999999999:abc', b'4294967296:abc', b'2147483648:x', b'd4:infod7:privatei2eee',
               b'd4:infod6:piecesi5eee', b'd4:info3:abce', b'i' + b'1' * 5000 + b'e', b'1' * 5000 + b':a', b'd2:\xff\xfe1:ae',
@@ -98,7 +99,7 @@ def gen_inputs(ck):
             i = rng.randrange(len(b))
             b = b[:i] + b[i:i + rng.randint(1, 30)] + b[i:]
         elif kind == 'cd':
-            v = rng.choice([b'i%de' % rng.choice([0, -1, 10 ** 11, -10 ** 11, 253402300800, 10 ** 20, -62135596801, 2 ** 63]), b'3:now', b'le', b'de', b'0:', b'li5ee'])
+            v = rng.choice([b'i%de' % rng.choice([0, -1, 10 ** 11, -10 ** 11, 253402300800, 10 ** 20, -62135596801, 2 ** 63, 2 ** 56, 2 ** 60, -2 ** 58, 2 ** 62 + 12345, 2 ** 63 - 1, -2 ** 63, 10 ** 17]), b'3:now', b'le', b'de', b'0:', b'li5ee'])
             b = bytearray(b'd13:creation date' + v + bytes(b[1:]).replace(b'13:creation datei', b'2:cdi'))
         elif kind == 'private':
             b = bytearray(bytes(b).replace(b'4:infod', b'4:infod7:private' + rng.choice([b'i2e', b'i-1e', b'0:', b'1:x', b'le', b'li0ee', b'de']) if b'7:private' not in bytes(b) else b'4:infod', 1))
